@@ -11,6 +11,8 @@ import (
 	"fmt"
 	"math/big"
 	"strings"
+
+	"cosmossdk.io/math"
 )
 
 type scenarioDef struct {
@@ -272,10 +274,11 @@ func (sc *scen) extendEq(withGenesis bool) bool {
 	if g.chance(0.3) {
 		curr = g.between(1, k-1)
 	}
-	exact := quo(mul(bi(int64(k-curr)), one18), bi(int64(k))) // 1 − curr/last, rounded down
-	rate := add(exact, bi(g.pickI64(-1, 0, 0, 1)))
-	maxExt := g.pickI64(2, 2, 2, 3, 1) // with 1 the second end time is final and no decision is taken
-	s := sc.unit(0, 9)                 // quantity of each old bid
+	// 1 − curr/last exactly as the keeper computes it (LegacyDec quotient, 18 decimals)
+	exact := math.LegacyOneDec().Sub(math.LegacyNewDec(int64(curr)).Quo(math.LegacyNewDec(int64(k)))).BigInt()
+	rate := add(exact, bi(g.pickI64(-1, 0, 0, 0, 1)))
+	maxExt := g.pickI64(2, 2, 2, 2, 2, 3, 3, 3, 3, 1) // with 1 the second end time is final and no decision is taken
+	s := sc.unit(0, 9)                                // quantity of each old bid
 	slack := []*big.Int{bi(0), bi(1), sub(s, bi(1))}[g.intn(3)]
 	S := add(mul(bi(int64(k)), s), slack)
 	p0 := bs(g.pickStr("1000000000000000000", "500000000000000000", "2000000000000000000", "333333333333333333"))
